@@ -16,7 +16,7 @@ type Scenario struct {
 	Q1   int  // PRECOMMIT recipients: 0 all; 1 leader only; 2 minimal quorum incl. leader; 3 none
 	Q2   int  // COMMIT recipients: 0 all; 1 none; 2 leader only; 3+i node i only
 	V    int  // Byzantine replica: 0 votes; 1 withholds its votes
-	L    int  // Byzantine leader: 0 honest; k in 1..3 re-proposes known certificate k-1 with that certificate as HighQc; 4 equivocates (X to all but one honest node, X' to the rest)
+	L    int  // Byzantine leader: 0 honest; 1,2 re-proposes known certificate 0/1 with that certificate as HighQc; 3 proposes a fresh block with no justification; 4 equivocates (X to one half of the honest nodes, X' to the other)
 }
 
 func (s Scenario) String() string {
@@ -210,6 +210,48 @@ func (w *World) allow(rc *roundCtx, e *Envelope) bool {
 	return true
 }
 
+// CertBlocks lists the distinct certified block hashes in order of first certification.
+func (w *World) CertBlocks() [][]byte {
+	var out [][]byte
+	for _, c := range w.Certs {
+		dup := false
+		for _, h := range out {
+			if bytes.Equal(h, c.QC.BlockHash) {
+				dup = true
+			}
+		}
+		if !dup {
+			out = append(out, c.QC.BlockHash)
+		}
+	}
+	return out
+}
+
+// certFor returns the first or the latest certificate of the k-th distinct certified block
+// (nil if there is none; for latest also nil when it is the same as the first).
+func (w *World) certFor(k int, latest bool) *Cert {
+	blocks := w.CertBlocks()
+	if k >= len(blocks) {
+		return nil
+	}
+	var first, last *Cert
+	for _, c := range w.Certs {
+		if bytes.Equal(c.QC.BlockHash, blocks[k]) {
+			if first == nil {
+				first = c
+			}
+			last = c
+		}
+	}
+	if !latest {
+		return first
+	}
+	if last == first {
+		return nil
+	}
+	return last
+}
+
 func (w *World) trackAllows(rc *roundCtx, e *Envelope) bool {
 	for _, t := range rc.tracks {
 		if bytes.Equal(t.bh, e.Msg.Qc.BlockHash) {
@@ -291,12 +333,21 @@ func (w *World) puppet(rc *roundCtx, phaseFired lib.Phase) {
 			all[i] = true
 		}
 		switch {
-		case rc.sc.L >= 1 && rc.sc.L <= 3:
-			k := rc.sc.L - 1
-			if k >= len(w.Certs) || w.Certs[k].Block == nil || w.Certs[k].Results == nil {
+		case rc.sc.L == 3:
+			// a fresh block with no justification at all, whatever locks the replicas hold
+			bx, rx := MakeBlock(byz, rc.rh, rc.round, 3)
+			h, _ := new(lib.Block).BytesToBlockHash(bx)
+			rc.tracks = []*track{{block: bx, results: rx, bh: h, rh: rx.Hash(), rcBuild: rc.rh, to: all}}
+		case rc.sc.L == 1 || rc.sc.L == 2 || rc.sc.L == 5 || rc.sc.L == 6:
+			// k-th distinct certified block, with its FIRST (L=1,2) or its LATEST (L=5,6) certificate
+			k, latest := rc.sc.L-1, false
+			if rc.sc.L >= 5 {
+				k, latest = rc.sc.L-5, true
+			}
+			c := w.certFor(k, latest)
+			if c == nil || c.Block == nil || c.Results == nil {
 				return
 			}
-			c := w.Certs[k]
 			hq := &lib.QuorumCertificate{Header: c.QC.Header.Copy(), BlockHash: c.QC.BlockHash, ResultsHash: c.QC.ResultsHash, ProposerKey: c.QC.ProposerKey,
 				Signature: c.QC.Signature, Block: c.Block, Results: c.Results}
 			rc.tracks = []*track{{block: c.Block, results: c.Results, bh: c.QC.BlockHash, rh: c.QC.ResultsHash, highQc: hq, rcBuild: c.RCBuild, to: all}}
